@@ -7,7 +7,7 @@ Main results
   the input is not a whole number of bytes (`drain_empty_byte` does not check that the padding
   bits it skips exist);
 * `simple_refines` : the exact `match` statement for whole-byte inputs;
-* `simple_ok`, `simple_insufficient` : the two directions for any matcher with `LazyOf`.
+* `simple_ok`, `simple_insufficient` : the two directions for any matcher with `WeakLazyOf`.
 -/
 import Qco.Lemmas.RefineBody
 namespace Qco
@@ -375,7 +375,7 @@ theorem simpleLoop_ok_length (L : Matcher) (gb : Nat → Nat) (d : DType) (fl : 
     · exact h8
 
 /-- a lazy matcher changes the outcome of the chunk loop only into `insufficient` -/
-theorem loop_lazy (L : Matcher) (hL : LazyOf L) (gb : Nat → Nat) (d : DType) (fl : Flags) :
+theorem loop_lazy (L : Matcher) (hL : WeakLazyOf L) (gb : Nat → Nat) (d : DType) (fl : Flags) :
     ∀ (F : Nat) (r : Bits) (p : Nat) (acc : List Nat),
       simpleLoop L gb d F (stIdle fl r p) acc = simpleLoop eagerMatcher gb d F (stIdle fl r p) acc ∨
       (simpleLoop L gb d F (stIdle fl r p) acc).1 = .err .insufficient := by
@@ -403,7 +403,7 @@ theorem loop_lazy (L : Matcher) (hL : LazyOf L) (gb : Nat → Nat) (d : DType) (
 
 /-- … and not at all when the eager loop succeeds (every chunk body is then followed by the magic
 byte of the next chunk or the termination byte, i.e. by 8 ≥ `lookahead` bits) -/
-theorem loop_lazy_ok (L : Matcher) (hL : LazyOf L) (gb : Nat → Nat) (d : DType) (fl : Flags) :
+theorem loop_lazy_ok (L : Matcher) (hL : WeakLazyOf L) (gb : Nat → Nat) (d : DType) (fl : Flags) :
     ∀ (F : Nat) (r : Bits) (p : Nat) (acc xs : List Nat) (σ2 : St),
       simpleLoop eagerMatcher gb d F (stIdle fl r p) acc = (.ok xs, σ2) →
       simpleLoop L gb d F (stIdle fl r p) acc = (.ok xs, σ2) := by
@@ -432,7 +432,7 @@ theorem loop_lazy_ok (L : Matcher) (hL : LazyOf L) (gb : Nat → Nat) (d : DType
           rw [hl]
           exact ih r'' p'' _ xs σ2 h
 
-theorem simple_lazy (L : Matcher) (hL : LazyOf L) (gb : Nat → Nat) (d : DType) (s : Bits) :
+theorem simple_lazy (L : Matcher) (hL : WeakLazyOf L) (gb : Nat → Nat) (d : DType) (s : Bits) :
     (simpleDecompress L gb d (write St.init s)).1 = (simpleDecompress eagerMatcher gb d (write St.init s)).1 ∨
       (simpleDecompress L gb d (write St.init s)).1 = .err .insufficient := by
   rw [simpleDecompress_init, simpleDecompress_init]
@@ -449,7 +449,7 @@ theorem simple_lazy (L : Matcher) (hL : LazyOf L) (gb : Nat → Nat) (d : DType)
   | corrupt => exact Or.inl rfl
   | compat => exact Or.inl rfl
 
-theorem simple_lazy_ok (L : Matcher) (hL : LazyOf L) (gb : Nat → Nat) (d : DType) (s : Bits)
+theorem simple_lazy_ok (L : Matcher) (hL : WeakLazyOf L) (gb : Nat → Nat) (d : DType) (s : Bits)
     (xs : List Nat) (h : (simpleDecompress eagerMatcher gb d (write St.init s)).1 = .ok xs) :
     simpleDecompress L gb d (write St.init s) = simpleDecompress eagerMatcher gb d (write St.init s) := by
   rw [simpleDecompress_init] at h ⊢
@@ -468,9 +468,9 @@ theorem simple_lazy_ok (L : Matcher) (hL : LazyOf L) (gb : Nat → Nat) (d : DTy
   | corrupt => rfl
   | compat => rfl
 
-/-- 2b (A): whatever the specification decodes, any `LazyOf` matcher decodes (no assumption on
+/-- 2b (A): whatever the specification decodes, any `WeakLazyOf` matcher decodes (no assumption on
 the number of bits, and what follows the termination byte is irrelevant) -/
-theorem simple_ok (L : Matcher) (hL : LazyOf L) (gb : Nat → Nat) (d : DType) (s : Bits)
+theorem simple_ok (L : Matcher) (hL : WeakLazyOf L) (gb : Nat → Nat) (d : DType) (s : Bits)
     (f : DFile) (r : Bits) (h : decodeFile gb d s = .ok f r) :
     (simpleDecompress L gb d (write St.init s)).1 = .ok (fileVals d f).flatten := by
   have he := simple_refines_gen gb d s
@@ -479,8 +479,8 @@ theorem simple_ok (L : Matcher) (hL : LazyOf L) (gb : Nat → Nat) (d : DType) (
   rw [simple_lazy_ok L hL gb d s _ he, he]
 
 /-- 2b (B): on whole-byte inputs, `insufficient` for the specification is `insufficient` for any
-`LazyOf` matcher -/
-theorem simple_insufficient (L : Matcher) (hL : LazyOf L) (gb : Nat → Nat) (d : DType) (s : Bits)
+`WeakLazyOf` matcher -/
+theorem simple_insufficient (L : Matcher) (hL : WeakLazyOf L) (gb : Nat → Nat) (d : DType) (s : Bits)
     (hs : s.length % 8 = 0) (h : decodeFile gb d s = .insufficient) :
     (simpleDecompress L gb d (write St.init s)).1 = .err .insufficient := by
   have he := simple_refines gb d s hs
@@ -490,7 +490,7 @@ theorem simple_insufficient (L : Matcher) (hL : LazyOf L) (gb : Nat → Nat) (d 
   · exact hl
 
 /-- without the whole-byte assumption: `insufficient` or `corrupt`, never `ok` -/
-theorem simple_insufficient_bits (L : Matcher) (hL : LazyOf L) (gb : Nat → Nat) (d : DType) (s : Bits)
+theorem simple_insufficient_bits (L : Matcher) (hL : WeakLazyOf L) (gb : Nat → Nat) (d : DType) (s : Bits)
     (h : decodeFile gb d s = .insufficient) :
     (simpleDecompress L gb d (write St.init s)).1 = .err .insufficient ∨
       (s.length % 8 ≠ 0 ∧ (simpleDecompress L gb d (write St.init s)).1 = .err .corrupt) := by
@@ -533,6 +533,8 @@ theorem eager_lazyOf : LazyOf eagerMatcher where
     | corrupt => exact absurd h (matchCode_complete codes hc s)
     | compat => exact absurd h (matchCode_ne_compat codes s)
   eager_with_slack := fun _ _ _ _ _ _ h _ => h
+
+theorem eager_weakLazyOf : WeakLazyOf eagerMatcher := eager_lazyOf.weak
 
 end Op
 end Qco
